@@ -130,6 +130,14 @@ let handle = function
        | InjectRaise (r, ns) -> "R " ^ string_of_reason r ^ " " ^ string_of_names ns
        | InjectPickle ms -> "P " ^ string_of_names (List.map (fun m -> m.m_name) ms))
       ^ (if compile_error f e h then " CE" else "")
+  | ["walk"; sel; fl; env; hier] ->
+      (* the loop of _inject_pickle_methods with a scope selector: 0 = the code, 1 = __cinit__ looked
+         up in node.scope only, 2 = __reduce__ looked up in node.scope only *)
+      let f = flags_of_string fl and e = env_of_string env and h = hier_of_string hier in
+      (match decide_walk_n (nat_of_int (int_of_string sel)) f e h with
+       | NoInject -> "N"
+       | InjectRaise (r, ns) -> "R " ^ string_of_reason r ^ " " ^ string_of_names ns
+       | InjectPickle ms -> "P " ^ string_of_names (List.map (fun m -> m.m_name) ms))
   | ["eff"; fl; env; hier] ->
       let f = flags_of_string fl and e = env_of_string env and h = hier_of_string hier in
       (match effective_reduce f e h with
